@@ -339,22 +339,31 @@ Proof. vm_compute. repeat split; reflexivity. Qed.
 (* for a zone without transitions (empty table, offset c) the oracle that is run over implementation
    traces returns None on what the model computes, provided no probe of the window is reached by a
    range of a day before the window's first local day (the recorded finding F-C08-b) *)
-Theorem tp_cal_step_ok_model_const c rnd lb allr ranges prefer incs excs b e clear probes pre :
+Theorem tp_cal_step_ok_model_const c rnd lb ma allr ranges prefer incs excs b e clear probes pre :
   tp_ranges_bounded ranges ->
   let off := fun _ : Z => c in
   let mk := fun l : Z => l - c in
-  let post := tp_update_region true (tp_script_func off mk rnd lb ranges) prefer incs excs b e clear pre in
+  let post := tp_update_region_ma true ma (tp_script_func off mk rnd lb ranges) prefer incs excs b e clear pre in
   tp_probes_cover probes (tp_spec_bounds c [] allr (tp_upd_begin b clear pre) e) = true ->
   (forall t d, In t probes -> tp_upd_begin b clear pre <= t < e ->
                d < tp_first_day off lb (tp_upd_begin b clear pre) -> tp_day_covers off mk false ranges d t = false) ->
-  tp_cal_step_ok c [] allr ranges prefer incs excs b e clear probes pre post (map (tp_is_inside post) probes) = None.
+  tp_cal_step_ok c [] ma allr ranges prefer incs excs b e clear probes pre post (map (tp_is_inside post) probes) = None.
 Proof.
   intros Hb off mk post Hcov Hno. unfold tp_cal_step_ok.
   rewrite TpOracleProofs.tp_ins_ok_model. cbn [negb]. subst post.
   destruct (negb clear && (e <? tp_ve_num pre)) eqn:Hn.
-  { unfold tp_update_region. rewrite Hn. rewrite TpOracleProofs.tp_st_eqb_refl. reflexivity. }
+  { unfold tp_update_region_ma. rewrite Hn. cbn [tp_noop_ok].
+    destruct ma; [|rewrite TpOracleProofs.tp_st_eqb_refl; reflexivity].
+    destruct (tp_ve pre) as [v|] eqn:Hv; [|reflexivity].
+    destruct (tp_merge_only_spec prefer incs excs pre v Hv) as [Hv' Hs].
+    rewrite Hv'. cbn [tp_oz_eqb]. rewrite Z.eqb_refl. cbn [andb].
+    assert (forallb (fun t => Bool.eqb (tp_inside_segs (tp_segs (tp_merge_only true prefer incs excs pre)) t)
+              (tp_below v t (tp_region_spec prefer (tp_inside_segs (tp_segs pre) t) (tp_inside_any incs t) (tp_inside_any excs t))
+                        (tp_inside_segs (tp_segs pre) t))) probes = true) as ->; [|reflexivity].
+    apply forallb_forall. intros t _. rewrite Hs. apply Bool.eqb_reflx. }
   assert (clear = false -> tp_ve_num pre <= e) as Hwin.
   { intros ->. cbn [negb andb] in Hn. lia. }
+  rewrite (tp_update_region_ma_effective true ma _ prefer incs excs b e clear pre Hwin) in *.
   pose proof (tp_update_region_covers true (tp_script_func off mk rnd lb ranges) prefer incs excs b e clear pre Hwin) as Hc.
   rewrite (TpOracleProofs.tp_covers_b_true _ _ _ Hc).
   rewrite Hcov. cbn [negb].
@@ -381,12 +390,12 @@ Qed.
 
 (* any table: an observation that answers IsInside differently from the statement at a probe of the computed window
    is rejected - whatever segments, window and other answers it reports *)
-Theorem tp_cal_step_rejects_wrong_answer base tab allr ranges prefer incs excs b e clear probes pre post ins t o :
+Theorem tp_cal_step_rejects_wrong_answer base tab ma allr ranges prefer incs excs b e clear probes pre post ins t o :
   (negb clear && (e <? tp_ve_num pre)) = false ->
   In (t, o) (combine probes ins) ->
   tp_upd_begin b clear pre <= t < e ->
   o <> tp_cal_expect base tab false None ranges prefer incs excs t ->
-  tp_cal_step_ok base tab allr ranges prefer incs excs b e clear probes pre post ins <> None.
+  tp_cal_step_ok base tab ma allr ranges prefer incs excs b e clear probes pre post ins <> None.
 Proof.
   intros Hn Hin Ht Ho. unfold tp_cal_step_ok.
   destruct (negb (tp_ins_ok post probes ins)); [discriminate|].
@@ -408,10 +417,10 @@ Proof.
 Qed.
 
 (* ... and it does not decide at all unless the probes contain what the written ranges ask for *)
-Theorem tp_cal_step_needs_spec_probes base tab allr ranges prefer incs excs b e clear probes pre post ins :
+Theorem tp_cal_step_needs_spec_probes base tab ma allr ranges prefer incs excs b e clear probes pre post ins :
   (negb clear && (e <? tp_ve_num pre)) = false ->
   tp_probes_cover probes (tp_spec_bounds base tab allr (tp_upd_begin b clear pre) e) = false ->
-  tp_cal_step_ok base tab allr ranges prefer incs excs b e clear probes pre post ins <> None.
+  tp_cal_step_ok base tab ma allr ranges prefer incs excs b e clear probes pre post ins <> None.
 Proof.
   intros Hn Hc. unfold tp_cal_step_ok.
   destruct (negb (tp_ins_ok post probes ins)); [discriminate|].
